@@ -103,6 +103,12 @@ test (a "fallback" operand) is refuted.  none_is_zero: answering through an attr
 calendar argument (`self._units = calendar.get_available_units`, `self._cal = calendar`) while `self.calendar` stays
 assignable is refuted (stale alias) unless some other method refreshes the alias.
 
+F40.  In the Div combinator (only there) `raise RuntimeError` for a *divisor* operand whose value is zero (operand value
+0 while an accumulator exists, for every accumulator sign) is the diagnosis of an undefined quotient, not "leaving the
+fold early"; the fold sites are counted as usual.  Still refuted: returning / continuing on a zero operand, another
+exception type, a guard on the accumulator or on `<= 0`, a guard that also rejects a zero *dividend* (first operand),
+the same guard in Sum / Sub / Mul; a guard that depends on the accumulator as well is undecided.
+
 The decision procedures evaluate the (loop free) blocks over finite abstract domains (see c17_util): unit values by
 sign class {None, <0, 0, >0}, dates by their position against a validity interval, direction in {-1, +1}.
 
@@ -1164,6 +1170,7 @@ def _arith(ctx, o, orr, osb, f, K, d, pre, loop, tail, H=None):
     ex = _fold_expander(prog, f, ctx.typer, K)
     found_op = None
     ok = True
+    zero_divisor_raises = {}
     for sv, sa in itertools.product(SIGNS, SIGNS):
         ev_ = Ev([(v, sv, 'sign'), (accn, sa, 'sign')])
 
@@ -1181,6 +1188,16 @@ def _arith(ctx, o, orr, osb, f, K, d, pre, loop, tail, H=None):
         if r.kind == 'wouldraise':
             osb.refute(f, r.stmt, r.stmt, f"{K} fold raises ({case}): {r.why}")
             return
+        if r.kind == 'raise' and want is ast.Div and sv == 0 and sa is not None:
+            # the current operand is a divisor and its value is zero: the quotient is undefined.  Diagnosing that with
+            # RuntimeError (as for division by the number zero) is not "leaving the fold early".  Only in the Div
+            # combinator, only for the operand's own value (checked below: for every accumulator), only RuntimeError.
+            from sa.effects import exc_name
+            if exc_name(r.stmt) != 'RuntimeError':
+                osb.refute(f, r.stmt, r.stmt, f"{K} rejects a zero divisor with {exc_name(r.stmt)}, expected RuntimeError ({case})")
+                return
+            zero_divisor_raises.setdefault(id(r.stmt), (r.stmt, set()))[1].add(sa)
+            continue
         if r.kind in ('return', 'break', 'raise'):
             osb.refute(f, r.stmt, r.stmt, f"{K} leaves the fold early ({case}): later operands are ignored")
             return
@@ -1250,8 +1267,16 @@ def _arith(ctx, o, orr, osb, f, K, d, pre, loop, tail, H=None):
         elif found_op[0] != this:
             osb.undecided(f, st, st, f"{K} combines with different operators depending on the sign of the values")
             return
+    if zero_divisor_raises:
+        got = set().union(*[x[1] for x in zero_divisor_raises.values()])
+        if got != {-1, 0, 1}:
+            st0 = next(iter(zero_divisor_raises.values()))[0]
+            osb.undecided(f, st0, st0, f"{K}: the zero-divisor RuntimeError depends on the accumulator (raised only when it is "
+                                       f"{', '.join(SIGN_NAME[x] for x in sorted(got))}), not only on the operand's value")
+            return
     if ok:
-        osb.site(f, loop, f"{K}: None skipped, first informative operand starts, later ones combined")
+        osb.site(f, loop, f"{K}: None skipped, first informative operand starts, later ones combined"
+                 + (", zero divisor -> RuntimeError" if zero_divisor_raises else ''))
     if found_op is not None:
         (opk, swapped), st = found_op
         if opk is not want:
